@@ -1,87 +1,245 @@
-import TracklibVerif.Model.Partition
+import TracklibVerif.Lemmas.PartitionTable
 import Mathlib.Algebra.Order.Monoid.Defs
+/-! Optimality of the interval recursion `opt`, for both directions at once, over a linearly ordered
+additive commutative monoid (ℕ, ℤ, ℚ, ℝ are instances), and what `backtracking` reconstructs. -/
 namespace TV.Partition
+
+/-! ### chains as lists -/
+
+/-- consecutive elements strictly increase -/
+def Inc : List Nat → Prop
+  | a :: b :: rest => a < b ∧ Inc (b :: rest)
+  | _ => True
+
+/-- last element of `i :: l` -/
+def lastOf : Nat → List Nat → Nat
+  | i, [] => i
+  | _, p :: ps => lastOf p ps
+
+theorem lastOf_append (i : Nat) (l1 l2 : List Nat) : lastOf i (l1 ++ l2) = lastOf (lastOf i l1) l2 := by
+  induction l1 generalizing i with
+  | nil => rfl
+  | cons p ps ih => exact ih p
+
+theorem inc_le_last : ∀ (l : List Nat) (i : Nat), Inc (i :: l) → i ≤ lastOf i l := by
+  intro l
+  induction l with
+  | nil => intro i _; exact Nat.le_refl _
+  | cons p ps ih => intro i h; exact Nat.le_trans (Nat.le_of_lt h.1) (ih p h.2)
+
+theorem inc_append : ∀ (l1 l2 : List Nat) (i : Nat), Inc (i :: l1) → Inc (lastOf i l1 :: l2) → Inc (i :: (l1 ++ l2)) := by
+  intro l1
+  induction l1 with
+  | nil => intro l2 i _ h; exact h
+  | cons p ps ih => intro l2 i h1 h2; exact ⟨h1.1, ih l2 p h1.2 h2⟩
+
+theorem inc_pairwise : ∀ (l : List Nat), Inc l ↔ l.Pairwise (· < ·) := by
+  intro l
+  induction l with
+  | nil => simp [Inc]
+  | cons a l ih =>
+    cases l with
+    | nil => simp [Inc]
+    | cons b r =>
+      simp only [Inc, ih, List.pairwise_cons]
+      constructor
+      · rintro ⟨hab, hb, hr⟩
+        refine ⟨?_, hb, hr⟩
+        intro x hx
+        rcases List.mem_cons.mp hx with rfl | hx
+        · exact hab
+        · exact Nat.lt_trans hab (hb x hx)
+      · rintro ⟨ha, hb, hr⟩
+        exact ⟨ha b List.mem_cons_self, hb, hr⟩
+
+theorem lastOf_getLast? (i : Nat) (l : List Nat) : (i :: l).getLast? = some (lastOf i l) := by
+  induction l generalizing i with
+  | nil => rfl
+  | cons p ps ih => rw [List.getLast?_cons_cons]; exact ih p
+
+section cost
+variable {α : Type} [AddCommMonoid α]
+
+theorem pathCost_append (C : Nat → Nat → α) : ∀ (l1 l2 : List Nat) (i : Nat),
+    pathCost 0 C (i :: (l1 ++ l2)) = pathCost 0 C (i :: l1) + pathCost 0 C (lastOf i l1 :: l2) := by
+  intro l1
+  induction l1 with
+  | nil => intro l2 i; simp [pathCost, lastOf]
+  | cons p ps ih =>
+    intro l2 i
+    simp only [List.cons_append, pathCost, lastOf]
+    rw [ih l2 p, add_assoc]
+
+theorem pathCost_congr (C C' : Nat → Nat → α) (n : Nat) (h : ∀ a b, a < b → b ≤ n → C a b = C' a b) :
+    ∀ (l : List Nat) (i : Nat), Inc (i :: l) → lastOf i l ≤ n → pathCost 0 C (i :: l) = pathCost 0 C' (i :: l) := by
+  intro l
+  induction l with
+  | nil => intro i _ _; rfl
+  | cons p ps ih =>
+    intro i hinc hlast
+    simp only [pathCost]
+    rw [ih p hinc.2 hlast, h i p hinc.1 (Nat.le_trans (inc_le_last ps p hinc.2) hlast)]
+end cost
+
+/-! ### a direction: `better` is the strict test, `R a b` reads "a is at least as good as b" -/
+
+structure Dir {α : Type} [Add α] (better : α → α → Bool) (R : α → α → Prop) : Prop where
+  refl : ∀ a, R a a
+  trans : ∀ {a b c}, R a b → R b c → R a c
+  of_better : ∀ {a b}, better a b = true → R a b
+  of_not_better : ∀ {a b}, better a b = false → R b a
+  add : ∀ {a b c d}, R a b → R c d → R (a + c) (b + d)
+
+section inst
 variable {α : Type} [AddCommMonoid α] [LinearOrder α] [IsOrderedAddMonoid α]
 
-def lt' (a b : α) : Bool := decide (a < b)
+theorem dir_min : Dir (better (α := α) 0) (· ≤ ·) where
+  refl := le_refl
+  trans := le_trans
+  of_better := by intro a b h; simp [better] at h; exact le_of_lt h
+  of_not_better := by intro a b h; simp [better] at h; exact h
+  add := add_le_add
 
-theorem scan_min (f : Nat → α) (lo n : Nat) (acc : α × Option Nat) :
-    (scan lt' f lo n acc).1 ≤ acc.1 ∧ (∀ k, lo ≤ k → k < lo + n → (scan lt' f lo n acc).1 ≤ f k) ∧
-    ((scan lt' f lo n acc).1 = acc.1 ∨ ∃ k, lo ≤ k ∧ k < lo + n ∧ (scan lt' f lo n acc).1 = f k) := by
+theorem dir_max : Dir (better (α := α) 1) (· ≥ ·) where
+  refl := le_refl
+  trans := fun h1 h2 => le_trans h2 h1
+  of_better := by intro a b h; simp [better] at h; exact le_of_lt h
+  of_not_better := by intro a b h; simp [better] at h; exact h
+  add := fun h1 h2 => add_le_add h1 h2
+end inst
+
+section dir
+variable {α : Type} [AddCommMonoid α] {better : α → α → Bool} {R : α → α → Prop}
+
+/-- the scan returns something at least as good as its start value and as every candidate -/
+theorem scan_best (hd : Dir better R) (f : Nat → α) (lo n : Nat) (acc : α × Option Nat) :
+    R (scan better f lo n acc).1 acc.1 ∧ (∀ k, lo ≤ k → k < lo + n → R (scan better f lo n acc).1 (f k)) := by
   induction n with
-  | zero => exact ⟨le_refl _, fun k h1 h2 => by omega, Or.inl rfl⟩
+  | zero => exact ⟨hd.refl _, fun k h1 h2 => by omega⟩
   | succ n ih =>
-    obtain ⟨h1, h2, h3⟩ := ih
+    obtain ⟨h1, h2⟩ := ih
     simp only [scan]
-    by_cases hb : lt' (f (lo + n)) (scan lt' f lo n acc).1 = true
-    · simp only [hb, if_true]
-      have hlt : f (lo + n) < (scan lt' f lo n acc).1 := by simpa [lt'] using hb
-      refine ⟨le_trans (le_of_lt hlt) h1, ?_, Or.inr ⟨lo + n, by omega, by omega, rfl⟩⟩
+    cases hb : better (f (lo + n)) (scan better f lo n acc).1 with
+    | true =>
+      simp only [if_true]
+      have hR := hd.of_better hb
+      refine ⟨hd.trans hR h1, ?_⟩
       intro k hk1 hk2
       by_cases hk : k = lo + n
-      · rw [hk]
-      · exact le_trans (le_of_lt hlt) (h2 k hk1 (by omega))
-    · simp only [hb]
-      have hge : (scan lt' f lo n acc).1 ≤ f (lo + n) := by
-        have : ¬ f (lo + n) < (scan lt' f lo n acc).1 := by simpa [lt'] using hb
-        exact not_lt.mp this
-      refine ⟨h1, ?_, ?_⟩
-      · intro k hk1 hk2
-        by_cases hk : k = lo + n
-        · rw [hk]; exact hge
-        · exact h2 k hk1 (by omega)
-      · rcases h3 with h | ⟨k, a, b, c⟩
-        · exact Or.inl h
-        · exact Or.inr ⟨k, a, by omega, c⟩
+      · rw [hk]; exact hd.refl _
+      · exact hd.trans hR (h2 k hk1 (by omega))
+    | false =>
+      simp only [Bool.false_eq_true, if_false]
+      have hR := hd.of_not_better hb
+      refine ⟨h1, ?_⟩
+      intro k hk1 hk2
+      by_cases hk : k = lo + n
+      · rw [hk]; exact hR
+      · exact h2 k hk1 (by omega)
 
-/-- increasing chains i = p0 < p1 < … < pr = j with the sum of their segment costs -/
-inductive Chain (cost : Nat → Nat → α) : Nat → Nat → α → Prop
-  | single {i j} : i < j → Chain cost i j (cost i j)
-  | cons {i k j c} : i < k → Chain cost k j c → Chain cost i j (cost i k + c)
+theorem opt_le_cost (hd : Dir better R) (C : Nat → Nat → α) (f i j : Nat) :
+    R (opt better (· + ·) C f i j).1 (C i j) := by
+  cases f with
+  | zero => exact hd.refl _
+  | succ f => exact (scan_best hd _ _ _ _).1
 
-theorem chain_lt {cost : Nat → Nat → α} {i j : Nat} {c : α} (h : Chain cost i j c) : i < j := by
-  induction h with
-  | single h => exact h
-  | cons h _ ih => omega
-
-theorem chain_append {cost : Nat → Nat → α} {i k j : Nat} {c1 c2 : α}
-    (h1 : Chain cost i k c1) (h2 : Chain cost k j c2) : Chain cost i j (c1 + c2) := by
-  induction h1 with
-  | single h => exact Chain.cons h h2
-  | cons h _ ih => rw [add_assoc]; exact Chain.cons h (ih h2)
-
-/-- C12-T2 (minimise, lower bound): D[i,j] is below the cost of every chain -/
-theorem opt_le (cost : Nat → Nat → α) :
-    ∀ f i j c, Chain cost i j c → j - i ≤ f + 1 → (opt lt' (· + ·) cost f i j).1 ≤ c := by
+/-- **bound**: `D[i,j]` is at least as good as the summed cost of every increasing chain from `i` to `j` -/
+theorem opt_bound (hd : Dir better R) (C : Nat → Nat → α) :
+    ∀ f i l, l ≠ [] → Inc (i :: l) → lastOf i l - i ≤ f + 1 →
+      R (opt better (· + ·) C f i (lastOf i l)).1 (pathCost 0 C (i :: l)) := by
   intro f
   induction f with
   | zero =>
-    intro i j c h hf
-    cases h with
-    | single h => simp [opt]
-    | cons h h' => have := chain_lt h'; omega
+    intro i l hne hinc hf
+    cases l with
+    | nil => exact absurd rfl hne
+    | cons p ps =>
+      cases ps with
+      | nil => simp only [lastOf, pathCost, add_zero, opt]; exact hd.refl _
+      | cons q rest =>
+        have h1 := hinc.1
+        have h2 := hinc.2.1
+        have h3 := inc_le_last rest q hinc.2.2
+        simp only [lastOf] at hf
+        omega
   | succ f ih =>
-    intro i j c h hf
-    simp only [opt]
-    obtain ⟨s1, s2, _⟩ := scan_min (fun k => (opt lt' (· + ·) cost f i k).1 + (opt lt' (· + ·) cost f k j).1) (i+1) (j - i - 1) (cost i j, none)
-    cases h with
-    | single h => exact s1
-    | @cons _ k _ c' hik h' =>
-      have hkj := chain_lt h'
-      refine le_trans (s2 k (by omega) (by omega)) ?_
-      exact add_le_add (ih i k _ (Chain.single hik) (by omega)) (ih k j c' h' (by omega))
+    intro i l hne hinc hf
+    cases l with
+    | nil => exact absurd rfl hne
+    | cons p ps =>
+      cases ps with
+      | nil => simp only [lastOf, pathCost, add_zero]; exact opt_le_cost hd C _ i p
+      | cons q rest =>
+        have h1 := hinc.1
+        have h2 := hinc.2.1
+        have h3 := inc_le_last rest q hinc.2.2
+        simp only [lastOf] at hf h3 ⊢
+        have hs := (scan_best hd (fun k => (opt better (· + ·) C f i k).1 + (opt better (· + ·) C f k (lastOf q rest)).1)
+          (i + 1) (lastOf q rest - i - 1) (C i (lastOf q rest), none)).2 p (by omega) (by omega)
+        have hrest := ih p (q :: rest) (by simp) hinc.2 (by simp only [lastOf]; omega)
+        simp only [lastOf] at hrest
+        have hfirst := opt_le_cost hd C f i p
+        show R (opt better (· + ·) C (f + 1) i (lastOf q rest)).1 (C i p + pathCost 0 C (p :: q :: rest))
+        exact hd.trans hs (hd.add hfirst hrest)
+end dir
 
-/-- C12-T2 (achievability): some chain realises D[i,j] -/
-theorem opt_chain (cost : Nat → Nat → α) :
-    ∀ f i j, i < j → Chain cost i j (opt lt' (· + ·) cost f i j).1 := by
-  intro f
-  induction f with
-  | zero => intro i j h; simp only [opt]; exact Chain.single h
-  | succ f ih =>
-    intro i j h
-    simp only [opt]
-    obtain ⟨_, _, s3⟩ := scan_min (fun k => (opt lt' (· + ·) cost f i k).1 + (opt lt' (· + ·) cost f k j).1) (i+1) (j - i - 1) (cost i j, none)
-    rcases s3 with h' | ⟨k, a, b, c⟩
-    · rw [h']; exact Chain.single h
-    · rw [c]; exact chain_append (ih i k (by omega)) (ih k j (by omega))
+/-! ### what `backtracking` reconstructs -/
+section bt
+variable {α : Type} [AddCommMonoid α]
+
+omit [AddCommMonoid α] in
+theorem enc_neg (o : Option Nat) : enc (-1) o < 0 ↔ o = none := by
+  cases o with
+  | none => simp [enc]
+  | some k => simp [enc]
+
+/-- On a table `M` holding the split points of `opt`, `backtracking(M, i, j)` (with enough fuel) returns `i`
+followed by interior points such that, closed by `j`, the list is an increasing chain from `i` to `j` whose
+summed cost is exactly `D[i,j]`. -/
+theorem bt_spec (C : Nat → Nat → α) (bt : α → α → Bool) (N : Nat) (M : Nat → Nat → Int)
+    (hM : ∀ a b, a < b → b < N → M a b = enc (-1) (opt bt (· + ·) C N a b).2) :
+    ∀ fuel i j, i < j → j < N → j - i ≤ fuel →
+      ∃ mids, backtracking M fuel i j = i :: mids ∧ Inc (i :: (mids ++ [j])) ∧
+        pathCost 0 C (i :: (mids ++ [j])) = (opt bt (· + ·) C N i j).1 := by
+  intro fuel
+  induction fuel with
+  | zero => intro i j h1 _ h3; omega
+  | succ fuel ih =>
+    intro i j hij hjN hfuel
+    have hunf := opt_unfold bt (· + ·) C N i j (by omega)
+    have harg := scan_arg bt (fun k => (opt bt (· + ·) C N i k).1 + (opt bt (· + ·) C N k j).1) (i + 1) (j - i - 1) (C i j, none)
+    simp only [backtracking]
+    by_cases hstop : M i j < 0 ∨ (if i ≤ j then j - i else i - j) ≤ 1
+    · rw [if_pos hstop]
+      refine ⟨[], rfl, ⟨hij, trivial⟩, ?_⟩
+      simp only [List.nil_append, pathCost, add_zero]
+      rcases hstop with hneg | hspan
+      · rw [hM i j hij hjN, enc_neg] at hneg
+        rcases harg with h | ⟨k, _, _, h⟩
+        · rw [hunf, h]
+        · rw [hunf, h] at hneg; cases hneg
+      · rw [if_pos (Nat.le_of_lt hij)] at hspan
+        rw [opt_adjacent bt (· + ·) C N i j hspan]
+    · rw [if_neg hstop]
+      have hnn : ¬ M i j < 0 := fun h => hstop (Or.inl h)
+      have hspan : ¬ (j - i ≤ 1) := by
+        intro h; apply hstop; right; rw [if_pos (Nat.le_of_lt hij)]; exact h
+      rw [hM i j hij hjN, enc_neg] at hnn
+      rcases harg with h | ⟨k, hk1, hk2, h⟩
+      · exfalso; apply hnn; rw [hunf, h]
+      · have hid : (M i j).toNat = k := by
+          rw [hM i j hij hjN, hunf, h]; simp [enc]
+        simp only [hid]
+        obtain ⟨m1, e1, inc1, c1⟩ := ih i k (by omega) (by omega) (by omega)
+        obtain ⟨m2, e2, inc2, c2⟩ := ih k j (by omega) hjN (by omega)
+        refine ⟨m1 ++ k :: m2, by rw [e1, e2]; rfl, ?_, ?_⟩
+        · have e : m1 ++ k :: m2 ++ [j] = (m1 ++ [k]) ++ (m2 ++ [j]) := by simp
+          rw [e]
+          apply inc_append _ _ _ inc1
+          rw [lastOf_append]; exact inc2
+        · have e : m1 ++ k :: m2 ++ [j] = (m1 ++ [k]) ++ (m2 ++ [j]) := by simp
+          rw [e, pathCost_append, lastOf_append, c1]
+          simp only [lastOf]
+          rw [c2, hunf, h]
+end bt
 end TV.Partition
